@@ -64,8 +64,23 @@ fn response_bytes(x: usize, e: &Value) -> (Vec<Vec<u8>>, bool) {
     let mut wire_body = vec![];
     match framing {
         "cl" => {
-            head.push_str(&format!("content-length: {n}\r\n"));
-            wire_body = body.clone();
+            // optionally gzip-coded (complete, or with its 8-byte trailer missing): the length framing is complete either way
+            if let Some(gz) = e.get("gz").and_then(|g| g.as_str()) {
+                use std::io::Write as _;
+                let mut enc = flate2::write::GzEncoder::new(vec![], flate2::Compression::default());
+                enc.write_all(&body).unwrap();
+                let mut coded = enc.finish().unwrap();
+                if gz == "trunc" {
+                    coded.truncate(coded.len() - 8);
+                } else if gz == "half" {
+                    coded.truncate(coded.len() / 2);
+                }
+                head.push_str(&format!("content-encoding: gzip\r\ncontent-length: {}\r\n", coded.len()));
+                wire_body = coded;
+            } else {
+                head.push_str(&format!("content-length: {n}\r\n"));
+                wire_body = body.clone();
+            }
         }
         "chunked" => {
             head.push_str("transfer-encoding: chunked\r\n");
@@ -295,7 +310,8 @@ pub fn replay(cases: &[Value], out: &mut TraceOut) {
             .unwrap()
             .iter()
             .map(|e| json!({"status":e["status"],"framing":e["framing"],"n":e["n"],"cut":e["cut"].as_i64().unwrap_or(-1),"persistent":e["persistent"].as_bool().unwrap_or(true),
-                            "extra":e["extra"].as_bool().unwrap_or(false),"drop":e["drop"].as_bool().unwrap_or(false),"bad":false}))
+                            "extra":e["extra"].as_bool().unwrap_or(false),"drop":e["drop"].as_bool().unwrap_or(false),
+                            "bad":e.get("gz").and_then(|g| g.as_str()).map(|g| g != "ok").unwrap_or(false)}))
             .collect();
         out.emit(json!({"ev":"Reset","run":i+1,"ex":gt,"limit":case["limit"].as_u64().unwrap_or(2)}));
         match crate::util::guarded(|| run_case(case)) {
